@@ -202,7 +202,7 @@ theorem reset_ok_state (e : Encoder) (ct : Nat) (w h : Int) (qs : Option (Quant 
       (resetFinish e' false ct w h).1.hasReturnedError = false ∧
       (resetFinish e' false ct w h).1.colorType = ct := by
     intro e' w1 w2 h1 h2 h'
-    obtain ⟨e1, out1, hs, hn, herr, hct⟩ := resetFinish_shape e' false ct w h
+    obtain ⟨e1, out1, hs, hn, herr, hct, _⟩ := resetFinish_shape e' false ct w h
     rw [hs] at h' ⊢
     rcases finishWrite_cases e1 out1 false with ⟨_, hf⟩ | ⟨_, hf, _⟩ | ⟨_, _, hf⟩
     · rw [hf] at h'; simp at h'
@@ -254,5 +254,44 @@ theorem reset_ok_state (e : Encoder) (ct : Nat) (w h : Int) (qs : Option (Quant 
       · intro hok
         have := fin _ (by omega) (by omega) (by omega) (by omega) hok
         exact ⟨this.1, this.2.1, this.2.2, by omega, by omega, by omega, by omega, hct⟩
+
+/-- a successful `Reset` leaves the bit accumulator empty and the DC predictors at zero, and
+    installs valid tables (`Inv`) -/
+theorem reset_ok_ready (e : Encoder) (ct : Nat) (w h : Int) (qs : Option (Quant × Quant)) (out : Array Nat)
+    (hw : WF e) (hq : ∀ q0 q1, qs = some (q0, q1) → QBytes q0 ∧ QBytes q1)
+    (hok : (reset e false ct w h qs).2 = .ok out) :
+    Inv (reset e false ct w h qs).1 ∧
+    ((reset e false ct w h qs).1.bitsN = 0 ∧ (reset e false ct w h qs).1.bitsV = 0) ∧
+    ((reset e false ct w h qs).1.prevDC0 = 0 ∧ (reset e false ct w h qs).1.prevDC1 = 0 ∧
+      (reset e false ct w h qs).1.prevDC2 = 0) := by
+  have hst := reset_ok_state e ct w h qs out hok
+  have hinv : Inv (reset e false ct w h qs).1 :=
+    (reset_spec e false ct w h qs hw hq).2 (by rw [hst.2.2.1]; exact hst.2.2.2.2.2.2.2)
+  refine ⟨hinv, ?_⟩
+  have fin : ∀ e', (resetFinish e' false ct w h).2 = .ok out →
+      ((resetFinish e' false ct w h).1.bitsN = 0 ∧ (resetFinish e' false ct w h).1.bitsV = 0) ∧
+      ((resetFinish e' false ct w h).1.prevDC0 = 0 ∧ (resetFinish e' false ct w h).1.prevDC1 = 0 ∧
+        (resetFinish e' false ct w h).1.prevDC2 = 0) := by
+    intro e' h'
+    obtain ⟨e1, out1, hs, _, _, _, b1, b2, b3, b4, b5, _⟩ := resetFinish_shape e' false ct w h
+    rw [hs] at h' ⊢
+    rcases finishWrite_cases e1 out1 false with ⟨_, hf⟩ | ⟨_, hf, _⟩ | ⟨_, _, hf⟩
+    · rw [hf] at h'; simp at h'
+    · cases hf
+    · rw [hf]; exact ⟨⟨b1, b2⟩, b3, b4, b5⟩
+  revert hok
+  unfold reset
+  split
+  · intro hok; cases hok
+  · cases qs with
+    | none =>
+      simp only
+      exact fin _
+    | some p =>
+      obtain ⟨q0, q1⟩ := p
+      simp only
+      split
+      · intro hok; cases hok
+      · exact fin _
 
 end WuffsVerif.Props.C18
